@@ -7,6 +7,7 @@ package main
 // Trace lines:  SAVE h issuer receiver | res     REM h addr | res     READ addr | h1,h2,…
 
 import (
+	"sync/atomic"
 	"errors"
 	"fmt"
 	"sort"
@@ -321,6 +322,65 @@ func init() {
 			hc.Close()
 		}
 		c.Distinct("concurrent-emptied-list")
+		// ---- simultaneous duplicate saves of ONE transaction (a retried proposal, a proposal racing its gossiped
+		// copy): exactly one save succeeds and the transaction is listed once for each party
+		dr := 300
+		if c.Tier == "thorough" {
+			dr = 3000
+		}
+		{
+			hc, err := cache.New(1000, 1024)
+			if err != nil {
+				return err
+			}
+			iss, rec := w.wallets[1], w.wallets[2]
+			for r := 0; r < dr; r++ {
+				t := w.NewTrx(iss, rec.Address(), spice.Melange{}, []byte{byte(r), byte(r >> 8), 9})
+				start := make(chan struct{})
+				var wg sync.WaitGroup
+				var okN atomic.Int64
+				for g := 0; g < 8; g++ {
+					wg.Add(1)
+					go func() {
+						defer wg.Done()
+						cp := t
+						<-start
+						if hc.SaveAwaitedTransaction(&cp) == nil {
+							okN.Add(1)
+						}
+					}()
+				}
+				close(start)
+				wg.Wait()
+				checked++
+				c.Rep.Evals++
+				bad := ""
+				if okN.Load() != 1 {
+					bad = fmt.Sprintf("%d of 8 simultaneous saves of one transaction succeeded", okN.Load())
+				}
+				for _, a := range []string{iss.Address(), rec.Address()} {
+					got, _ := hc.ReadTransactions(a)
+					n := 0
+					for _, x := range got {
+						if x.Hash == t.Hash {
+							n++
+						}
+					}
+					if bad == "" && n != 1 {
+						bad = fmt.Sprintf("after 8 simultaneous saves the transaction is listed %d times for %s", n, w.A(a))
+					}
+				}
+				if bad != "" {
+					lost++
+					c.Violate("C17", "simultaneous-duplicate-saves-not-atomic", fmt.Sprintf("%s (round %d)", bad, r),
+						map[string]interface{}{"section": "await", "scenario": "duplicate-saves", "round": r})
+					break
+				}
+				hc.RemoveAwaitedTransaction(t.Hash, rec.Address())
+			}
+			hc.Close()
+		}
+		c.Distinct("concurrent-duplicate-saves")
 		c.Rep.Extra["concurrent_rounds"] = checked
 		c.Rep.Extra["concurrent_rounds_with_lost_entries"] = lost
 		c.Distinct("concurrent")
